@@ -272,6 +272,8 @@ pub enum Seal {
     None,
     /// one-byte CRC field holding only the low (0) or high (1) byte of a CRC that needs two
     TruncCrc(u8),
+    /// two faults in one trailer: wrong CRC and wrong end marker
+    BadCrcWrongEnd(u16, u8),
 }
 
 #[derive(Clone, PartialEq, Eq, Debug, Serialize, Deserialize, Hash)]
@@ -397,6 +399,10 @@ pub fn seal_msg(m: &MsgScn) -> Vec<u8> {
         }
         Seal::NoEnd => put(&mut v, crc, false),
         Seal::None => {}
+        Seal::BadCrcWrongEnd(x, e) => {
+            put(&mut v, crc ^ if x == 0 { 1 } else { x }, false);
+            v.push(e);
+        }
         Seal::TruncCrc(which) => {
             v.push(0x62);
             v.push(if which % 2 == 0 { (crc & 0xff) as u8 } else { (crc >> 8) as u8 });
